@@ -54,7 +54,8 @@ def povm_mats(sysname):
         sic = [(I + d[0] * X + d[1] * Y + d[2] * Z) / 4 for d in dirs]
         noisy_z = [0.9 * z0 + 0.1 * z1 + 0.05j * (np.array([[0, 1], [-1, 0]])), None]
         noisy_z[1] = np.eye(2) - noisy_z[0]
-        return [[x0, x1], [y0, y1], [z0, z1], trine, sic, noisy_z]
+        unbal = [np.diag([0.8, 0.1]).astype(complex), np.diag([0.2, 0.9]).astype(complex)]     # elements of unequal trace
+        return [[x0, x1], [y0, y1], [z0, z1], trine, sic, noisy_z, unbal]
     if sysname == "T1":
         out = []
         for P in state_mats("T1"):
